@@ -6,7 +6,11 @@ Import ListNotations.
 Require Import Verif.Lib.Wire Verif.Gen.Facts_C10.
 
 (* ------------------------------------------------------------------ JSON data model *)
-(* JFlt z is the float z.0 (time stamps only; the clock of the model is integer valued) *)
+(* Clock: time.time() is a float on a grid of 1/tick seconds (tick = 4: 0.25 s, exactly representable,
+   so every float subtraction/comparison/int() the code performs is exact).  All clock values of the
+   model (request time, operation time, float time stamps) are counted in ticks; int(time.time()) is
+   truncation to whole seconds.  JFlt q is the float q/tick (time stamps only). *)
+Definition tick : Z := 4%Z.
 Inductive jv :=
 | JNull | JBool (b : bool) | JInt (z : Z) | JFlt (z : Z) | JStr (s : text)
 | JList (l : list jv) | JObj (m : list (text * jv)).
@@ -76,8 +80,9 @@ Record oracles := {
 Record opts := { key : text; timeout : option Z; reissue : option Z; soe : bool }.
 
 (* ------------------------------------------------------------------ session object *)
-Inductive tnum := TI (z : Z) | TF (z : Z).     (* int / float time stamp *)
-Definition tval (t : tnum) : Z := match t with TI z => z | TF z => z end.
+Inductive tnum := TI (z : Z) | TF (q : Z).     (* int seconds / float (in ticks) time stamp *)
+Definition tval (t : tnum) : Z := match t with TI z => (z * tick)%Z | TF q => q end.     (* in ticks *)
+Definition int_time (now : Z) : Z := Z.quot now tick.     (* int(time.time()) *)
 Definition tjv (t : tnum) : jv := match t with TI z => JInt z | TF z => JFlt z end.
 
 Record sess := { st : dict; created : tnum; accessed : tnum; renewed : tnum; isnew : bool; dirty : bool }.
@@ -108,9 +113,9 @@ Definition float_ok_char (c : N) : bool :=     (* ASCII characters that may occu
 Definition digits_val (s : text) : Z := fold_left (fun a c => (a * 10 + Z.of_N (c - 48))%Z) s 0%Z.
 Definition float_of (v : jv) : fres :=
   match v with
-  | JInt z => FOk z | JFlt z => FOk z | JBool b => FOk (if b then 1 else 0)%Z
+  | JInt z => FOk (z * tick)%Z | JFlt q => FOk q | JBool b => FOk (if b then tick else 0)%Z
   | JStr s =>
-      if negb (Nat.eqb (length s) 0) && forallb is_digit s && Nat.leb (length s) 15 then FOk (digits_val s)
+      if negb (Nat.eqb (length s) 0) && forallb is_digit s && Nat.leb (length s) 15 then FOk (digits_val s * tick)%Z
       else if existsb (fun c => (c <? 128)%N && negb (float_ok_char c)) s then FErr
       else match s with [] => FErr | _ => FUnm end
   | _ => FErr
@@ -169,7 +174,7 @@ Definition init (O : oracles) (o : opts) (cookie : option text) (now : Z) : ires
   | None => IUnm
   | Some (rn, cr, state, nw) =>
       let state := match timeout o with
-                   | Some t => if cmp_eval timeout_cmp (now - tval rn) t then empty_state else state
+                   | Some t => if cmp_eval timeout_cmp (now - tval rn) (t * tick) then empty_state else state
                    | None => state
                    end in
       match state_dict state with
@@ -185,17 +190,18 @@ Inductive op :=
 | OClear | OUpdate (m : dict) | OSetDefault (k : text) (d : jv) | OPop (k : text) (d : option jv) | OPopItem
 | OSetItem (k : text) (v : jv) | ODelItem (k : text)
 | OFlash (msg : jv) (q : text) (dup : bool) | OPopFlash (q : text) | OPeekFlash (q : text)
-| ONewCsrf (tok : text) | OGetCsrf (tok : text) | OChanged | OInvalidate.
+| ONewCsrf (tok : text) | OGetCsrf (tok : text) | OChanged | OInvalidate
+| OIor (m : dict).     (* session |= m : dict.__ior__, Python >= 3.9 *)
 
 Inductive meth :=
 | MGet | MGetItem | MItems | MValues | MKeys | MContains | MLen | MIter
 | MClear | MUpdate | MSetDefault | MPop | MPopItem | MSetItem | MDelItem
-| MFlash | MPopFlash | MPeekFlash | MNewCsrf | MGetCsrf | MChanged | MInvalidate.
+| MFlash | MPopFlash | MPeekFlash | MNewCsrf | MGetCsrf | MChanged | MInvalidate | MIor.
 
 Definition all_meths : list meth :=
   [MGet; MGetItem; MItems; MValues; MKeys; MContains; MLen; MIter;
    MClear; MUpdate; MSetDefault; MPop; MPopItem; MSetItem; MDelItem;
-   MFlash; MPopFlash; MPeekFlash; MNewCsrf; MGetCsrf; MChanged; MInvalidate].
+   MFlash; MPopFlash; MPeekFlash; MNewCsrf; MGetCsrf; MChanged; MInvalidate; MIor].
 
 Definition meth_name (m : meth) : text :=
   match m with
@@ -206,6 +212,7 @@ Definition meth_name (m : meth) : text :=
   | MFlash => nm_flash | MPopFlash => nm_pop_flash | MPeekFlash => nm_peek_flash
   | MNewCsrf => nm_new_csrf_token | MGetCsrf => nm_get_csrf_token | MChanged => nm_changed
   | MInvalidate => nm_invalidate
+  | MIor => nm_ior
   end.
 
 Fixpoint lookup_tab {A} (k : text) (l : list (text * A)) : option A :=
@@ -220,12 +227,12 @@ Definition wrapper_of (m : meth) : N :=
 Definition apply_wrap (o : opts) (now : Z) (s : sess) (kind : N) : sess :=
   match kind with
   | 1%N =>
-      let s1 := with_accessed s (TI now) in
+      let s1 := with_accessed s (TI (int_time now)) in
       match reissue o with
-      | Some r => if cmp_eval reissue_cmp (now - tval (renewed s)) r then mark s1 else s1
+      | Some r => if cmp_eval reissue_cmp (int_time now * tick - tval (renewed s)) (r * tick) then mark s1 else s1
       | None => s1
       end
-  | 2%N => mark (with_accessed s (TI now))
+  | 2%N => mark (with_accessed s (TI (int_time now)))
   | _ => s
   end.
 
@@ -285,6 +292,7 @@ Definition raw (p : op) (d : dict) : dict * res :=
       else (d, RV (match d_get csrf_key d with Some v => v | None => JNull end))
   | OChanged => (d, RV JNull)
   | OInvalidate => ([], RV JNull)
+  | OIor m => (d_update m d, RV JNull)
   end.
 
 (* the CookieSession methods entered (through attribute lookup on the session, hence through
@@ -302,6 +310,7 @@ Definition calls (p : op) (d : dict) : list meth :=
   | OGetCsrf _ => if token_absent d then [MGetCsrf; MGet; MNewCsrf; MSetItem] else [MGetCsrf; MGet]
   | OChanged => [MChanged]
   | OInvalidate => [MInvalidate; MClear]
+  | OIor _ => [MIor]
   end.
 
 Definition step (o : opts) (p : op) (now : Z) (s : sess) : sess * res :=
@@ -391,7 +400,7 @@ Definition spec_start (o : opts) (sv : option store) (now : Z) : bool * Z * Z * 
   match sv with
   | None => (true, now, now, [])
   | Some s =>
-      let expired := match timeout o with Some t => Z.gtb (now - tval (s_acc s)) t | None => false end in
+      let expired := match timeout o with Some t => Z.gtb (now - tval (s_acc s)) (t * tick) | None => false end in
       (false, s_created s, tval (s_acc s), if expired then [] else s_st s)
   end.
 
@@ -403,8 +412,9 @@ Fixpoint spec_ops (o : opts) (rn : Z) (l : list (op * Z)) (d : dict) (acc : tnum
   | (p, t) :: r =>
       let '(acc1, md1) :=
         match op_cls p d with
-        | CAcc => (TI t, md || match reissue o with Some ri => Z.gtb (t - rn) ri | None => false end)
-        | CMut => (TI t, true)
+        | CAcc => (TI (int_time t),
+                   md || match reissue o with Some ri => Z.gtb (int_time t * tick - rn) (ri * tick) | None => false end)
+        | CMut => (TI (int_time t), true)
         | CMark => (acc, true)
         end in
       let '(d2, acc2, md2, xs) := spec_ops o rn r (fst (raw p d)) acc1 md1 in
@@ -519,13 +529,19 @@ Fixpoint dec_fuel (f : nat) (n : N) (acc : text) : text :=
 Definition dec_N (n : N) : text := dec_fuel (S (N.to_nat (N.log2 n))) n [].
 Definition dec_Z (z : Z) : text := if (z <? 0)%Z then 45%N :: dec_N (Z.abs_N z) else dec_N (Z.to_N z).
 
+(* repr of the float q/4 *)
+Definition frac_repr (r : N) : text :=
+  match r with 0%N => [48]%N | 1%N => [50; 53]%N | 2%N => [53]%N | _ => [55; 53]%N end.
+Definition flt_repr (q : Z) : text :=
+  (if (q <? 0)%Z then [45%N] else []) ++ dec_N (Z.abs_N q / 4) ++ [46%N] ++ frac_repr (Z.abs_N q mod 4).
+
 Fixpoint json_dumps (v : jv) : text :=
   match v with
   | JNull => [110; 117; 108; 108]%N
   | JBool true => [116; 114; 117; 101]%N
   | JBool false => [102; 97; 108; 115; 101]%N
   | JInt z => dec_Z z
-  | JFlt z => dec_Z z ++ [46; 48]%N
+  | JFlt q => flt_repr q
   | JStr s => json_str s
   | JList l =>
       91%N :: (fix go (l : list jv) : text :=
@@ -626,6 +642,7 @@ Definition get_op (v : val) : option op :=
   | VL [VI 19%Z; VT t] => Some (OGetCsrf t)
   | VL [VI 20%Z] => Some OChanged
   | VL [VI 21%Z] => Some OInvalidate
+  | VL [VI 22%Z; m] => olet m := get_dict m in Some (OIor m)
   | _ => None
   end.
 
